@@ -39,6 +39,24 @@ class _Radii:
         return self.rows[k[0]][k[1]]
 
 
+def ref_variable_radii(window_size, freqs, mask_index, power=0.75):
+    """documented 'variable' window: radius proportional to frequency ** (power - 1), normalised so that the
+    frequency-weighted mean radius is window_size, at least 1 for every real token, 0 for a nullified mask"""
+    rad = [float(f) ** (power - 1) for f in freqs]
+    norm = sum(r * float(f) for r, f in zip(rad, freqs))
+    rad = [r / norm for r in rad]
+    rad.append(min(rad))
+    if mask_index is not None:
+        rad[mask_index] = 0.0
+    out = []
+    for x in rad:
+        x = x * window_size
+        if 0 < x < 1:
+            x = 1.0
+        out.append(int(round(x)))          # python round = numpy round (half to even)
+    return out
+
+
 def expected_matrix(docs, est, cfg):
     """reference of the statement on the documented preprocessing of `docs` with the fitted vocabulary"""
     vocab = est.token_label_dictionary_
@@ -58,9 +76,14 @@ def expected_matrix(docs, est, cfg):
     for o, r in zip(cfg["orientations"], cfg["radii"]):
         for side in ([True, False] if o == "directional" else [o == "before"]):
             rev.append(side)
-            row = [r] * (V + 1)
-            if cfg.get("nullify"):
-                row[V - 1] = 0
+            if cfg.get("window_function") == "variable":
+                freqs = [f for f in est._token_frequencies_._flat()]
+                row = ref_variable_radii(r, freqs, (V - 1) if cfg.get("nullify") else None)
+                row = row + [0] * (V + 1 - len(row))
+            else:
+                row = [r] * (V + 1)
+                if cfg.get("nullify"):
+                    row[V - 1] = 0
             radii.append(row)
     nw = len(rev)
     mask_index = (V - 1) if cfg.get("nullify") else None
@@ -88,7 +111,8 @@ def h_token_class(ex, fit_lens, tr_lens, cfg, props):
     kw = dict(window_radii=cfg["radii"] if len(cfg["radii"]) > 1 else cfg["radii"][0],
               window_orientations=cfg["orientations"] if len(cfg["orientations"]) > 1 else cfg["orientations"][0],
               kernel_functions=cfg["kernel"] if len(cfg["radii"]) == 1 else [cfg["kernel"]] * len(cfg["radii"]),
-              window_functions="fixed" if len(cfg["radii"]) == 1 else ["fixed"] * len(cfg["radii"]), normalize_windows=cfg["normalize_windows"],
+              window_functions=cfg.get("window_function", "fixed") if len(cfg["radii"]) == 1 else [cfg.get("window_function", "fixed")] * len(cfg["radii"]),
+              normalize_windows=cfg["normalize_windows"],
               n_threads=cfg.get("n_threads", 1), coo_initial_memory=cfg.get("mem", "0.5 GiB"))
     if cfg.get("mask") is not None:
         kw["mask_string"] = cfg["mask"]
@@ -179,6 +203,10 @@ def cases(tier, props=("C03", "C02", "C01", "C14", "C13"), which="all"):
         G.append(((3,), (2,), dict(base, mask=MASK, excluded=True, orientations=["after"], normalize_windows=False)))
         G.append(((3,), (), dict(base, mask=MASK, nullify=True, excluded=True, orientations=["directional"], radii=[1])))
         G.append(((2, 2), (1,), dict(base, n_threads=2, orientations=["after"], normalize_windows=False, mem="1k")))
+        # frequency-dependent ('variable') window radii, with and without a nullified mask
+        G.append(((4,), (), dict(base, window_function="variable", radii=[2], orientations=["after"], normalize_windows=False)))
+        G.append(((3,), (), dict(base, window_function="variable", radii=[2], mask=MASK, nullify=True, excluded=True, orientations=["directional"], normalize_windows=False)))
+        G.append(((3,), (), dict(base, window_function="variable", radii=[2], mask=MASK, nullify=True, excluded=True, orientations=["after"], normalize_windows=False)))
         G.append(((1, 1, 2), (), dict(base, n_threads=3, orientations=["before"], radii=[1])))
     else:
         for f, t in (((3,), (2,)), ((2, 2), (2,)), ((4,), (1, 1)), ((1, 2, 1), (3,))):
@@ -193,6 +221,9 @@ def cases(tier, props=("C03", "C02", "C01", "C14", "C13"), which="all"):
             G.append((f, t, dict(base, mask=MASK, excluded=True, orientations=["after"], normalize_windows=False)))
             G.append((f, t, dict(base, mask=MASK, nullify=True, excluded=True)))
             G.append((f, t, dict(base, excluded=True)))
+            for r in (2, 4):          # even sizes: no radius falls on a .5 rounding boundary (float32 frequencies vs exact arithmetic)
+                G.append((f, t, dict(base, window_function="variable", radii=[r], orientations=["after"], normalize_windows=False)))
+                G.append((f, t, dict(base, window_function="variable", radii=[r], mask=MASK, nullify=True, excluded=True, normalize_windows=False)))
     cs = []
     for f, t, cfg in G:
         if which == "threads" and cfg.get("n_threads", 1) == 1 and cfg.get("mem") is None:
